@@ -30,8 +30,10 @@ def _decode_escape_sequence(  # noqa: PLR0911
         raise PestGrammarSyntaxError("incomplete escape sequence", token=token) from err
 
     # TODO: match these to Rust?
-    if ch == quote:
-        return quote, index
+    if ch in ('"', "'"):
+        return ch, index
+    if ch == "0":
+        return "\0", index
     if ch == "\\":
         return "\\", index
     if ch == "/":
